@@ -374,6 +374,7 @@ func udhInput(u map[byte][]byte) string {
 // ---------------------------------------------------------------- the run
 func corrC11(r *Run) {
 	r.Import("Model.AccessorsRun")
+	r.Import("Model.CombinerRun")
 	r.PerShard(150)
 	r.Rule = "every read-only operation (fmt %v/%+v and String() of the PDU and of each field, Resp, ReadSequence, ReadCommandStatus, Parse, " +
 		"ConcatenatedHeader, the multipart combiner) under recover() on: every PDU a malformed-frame stream yields (valid header of each of the 33 " +
@@ -539,6 +540,9 @@ func corrC11(r *Run) {
 			r.Fail("combiner-panic/mixed-totals", "the combiner panicked on a history mixing totals under one key", histInput(table, hist), obs.PanicMsg, "segments are stored or ignored")
 		}
 	}
+
+	// ---- 5'. long runs of ignored segments on one combiner (c11_hist.go)
+	c11Ignored(r)
 
 	// ---- 6. the malformed-frame stream
 	var delivered []*pdu.DeliverSM
